@@ -248,6 +248,18 @@ Definition benign_defaults : list string :=
    "timezone"               (* the local UTC offset through the `time` crate (read only) *)
   ]%string.
 
+(** the default bodies that are neither a denial nor a composition, verbatim (whitespace normalised):
+    each is a constant answer or a no-op, except the two that read the host's clock / time zone.
+    A default whose text changes has to be classified again. *)
+Definition benign_bodies : list (string * string) := [
+  ("save_error_color", ""); ("output_enabled", "true"); ("set_output_enabled", "true");
+  ("print_str_trace", ""); ("var", "None"); ("file_exists", "false");
+  ("allow_thread_spawning", "false"); ("audio_sample_rate", "44100"); ("close", "Ok(())");
+  ("now", "now()")
+]%string.
+(** the only defaults that may touch the host: both read-only (wall clock, local UTC offset) *)
+Definition host_reading_defaults : list string := ["now"; "timezone"]%string.
+
 (** shape of a trait method's default body, as the table generator classifies it *)
 Inductive dflt :=
 | DRequired                    (* no default: any, any_mut *)
